@@ -347,6 +347,24 @@ def rule_g(ctx):
                                 okc = True
                     ctx.check(okc, "C08-G", "Link-node-only-if-some-child-not-shallow-empty", st["span"], fn_key(cb),
                               "Link construction must be guarded by any(|c| !c.is_shallow_empty())")
+                    # ... and by nothing else: a link with rendered content always becomes a Link node (it is the Link node that
+                    # gets the reference and the footnote), and its children do not leave the reducer in any other node
+                    others = []
+                    for (a, s2) in cb.cdeps_transitive(bb):
+                        truth, src = edge_is_true(cb, a, s2)
+                        if src and src[0] == "call" and callee_method(src[1]) == "any":
+                            continue
+                        if src and src[0] == "discr":
+                            continue  # Option/Result plumbing
+                        others.append(cb.term(a)["span"])
+                    ctx.check(not others, "C08-G", "Link-node-whenever-some-child-not-shallow-empty", st["span"], fn_key(cb),
+                              "the Link construction depends on a further condition (%s): a link with visible content can end up "
+                              "without a Link node, i.e. without its [k] reference and footnote entry" % others[:2])
+                    wraps = [st2["span"] for x in cb.reachable() for st2 in cb.stmts(x)
+                             if (st2.get("rv") or {}).get("agg") == "adt" and ends((st2.get("rv") or {}).get("adt"), "RenderNodeInfo")
+                             and (st2.get("rv") or {}).get("variant") != "Link"]
+                    ctx.check(not wraps, "C08-G", "link-reducer-builds-only-Link", st["span"], fn_key(cb),
+                              "the reducer of an <a href> also builds another node kind from the link's children (%s)" % wraps[:2])
     ctx.floor("C08-G", "Link node constructions", found, 1)
     # what "shallow empty" means for text: white-space-only text (and alt text) is empty
     ise = F.one("RenderNode::is_shallow_empty")
